@@ -242,8 +242,27 @@ func c16Gen(seed int64, idx int) *c16Case {
 			probe(s)
 		}
 		c.unassert["\xff"] = true // not a character string at all
-	case 4: // enumeration / boolean / empty
-		switch r.Intn(3) {
+	case 4: // enumeration / boolean / empty / bits / instance-identifier
+		switch r.Intn(5) {
+		case 3:
+			c.kind = "bits"
+			names := []string{"one", "two", "x-y"}[:r.Range(1, 3)]
+			typ = yang.S("type", "bits")
+			c.model = &yang.RType{Kind: "bits", Enums: names}
+			for _, n := range names {
+				typ.Add(yang.S("bit", n))
+			}
+			for _, s := range []string{"one", "two", "one two", "two one", "x-y", "", "three", "one three", "one one", "one,two", "ONE", " one"} {
+				probe(s)
+			}
+			c.unassert["two one"] = true // any order is a lexical form; the canonical form is in position order
+		case 4:
+			c.kind = "instance-identifier"
+			typ = yang.S("type", "instance-identifier")
+			c.model = &yang.RType{Kind: "instance-identifier"}
+			for _, s := range []string{"/t:c16c/t:l", "/t:c16c", "", "!!!", "not a path", "][", "c16c"} {
+				probe(s)
+			}
 		case 0:
 			c.kind = "enumeration"
 			names := []string{"up", "down", "a b", "Up", "x-y.z", "日本"}
@@ -521,6 +540,14 @@ func c16Class(c *c16Case, pr string, want bool) string {
 		}
 		if !c.floatRange && sigDigits(pr) > 15 {
 			return "C16/decimal64/64-bit-limits-compared-as-float64"
+		}
+	case "bits":
+		if !want {
+			return "C16/bits/not-validated"
+		}
+	case "instance-identifier":
+		if !want {
+			return "C16/instance-identifier/not-validated"
 		}
 	case "string":
 		if c.model.Lens != nil && len(pr) != len([]rune(pr)) {
